@@ -34,6 +34,9 @@ META = {
 METRICS = ["DSC", "IOU", "RVD"]
 
 
+WARMUP = ([1, 1, 0], [1, 0, 0])       # the 3-D volume (shape 1x1x3) an evaluator has seen before, in the multi-step case
+
+
 def cases(tier):
     out = []
     um_shape = (3,) if tier == "quick" else (4,)
@@ -44,6 +47,8 @@ def cases(tier):
         cfgs.append({"input_type": "MATCHED_INSTANCE", "matching_metric": None, "decision_metric": "IOU", "shape": (4,), "K": 2, "dtype": "uint8"})
         for be in (None, "cc3d"):
             cfgs.append({"input_type": "SEMANTIC", "backend": be, "matching_metric": "IOU", "decision_metric": None, "shape": (4,), "K": 1, "dtype": "uint8"})
+        # multi-step: the same evaluator has evaluated a 3-D volume before; the 1-D maps (two semantic classes) are still approximated the documented way
+        cfgs.append({"input_type": "SEMANTIC", "backend": None, "matching_metric": "IOU", "decision_metric": None, "shape": (3,), "K": 2, "dtype": "uint8", "warmup3d": True})
     else:
         for mm in ("IOU", "DSC"):
             for dm in (None, "IOU"):
@@ -78,7 +83,7 @@ def run_case(case):
     it = case["input_type"]
 
     def decode(m):
-        return {"cfg": {k: case.get(k) for k in ("input_type", "backend", "matching_metric", "decision_metric", "metrics")}, "shape": list(shape), "dtype": case["dtype"],
+        return {"cfg": {k: case.get(k) for k in ("input_type", "backend", "matching_metric", "decision_metric", "metrics", "warmup3d")}, "shape": list(shape), "dtype": case["dtype"],
                 "pred": [jsonable(v, m) for v in pv], "ref": [jsonable(v, m) for v in rv], "thr_m": jsonable(thr_m, m), "thr_d": jsonable(thr_d, m)}
     h = H(PROP, case["name"], decode, replay_kind="e2e", max_witnesses=60)
 
@@ -87,6 +92,9 @@ def run_case(case):
         ra = SArr(list(rv), case["dtype"], shape).protect("caller reference")
         ev = e2e.build_evaluator(T, case, SNum(thr_m), SNum(thr_d))
         try:
+            if case.get("warmup3d"):
+                ev.evaluate(SArr(list(WARMUP[0]), "uint8", (1, 1, 3)), SArr(list(WARMUP[1]), "uint8", (1, 1, 3)), verbose=False)
+                stubs.reset_calls()
             got = e2e.run_twin(T, ev, pa, ra, METRICS)
         except EngineSignal:
             raise
@@ -135,7 +143,10 @@ def real_e2e(case, mode, expect):
     p0, r0 = pred.copy(), ref.copy()
     mets = cfg["metrics"]
     try:
-        res = RC.build_evaluator(cfg).evaluate(pred, ref, verbose=False)["ungrouped"][0]
+        ev = RC.build_evaluator(cfg)
+        if cfg.get("warmup3d"):
+            ev.evaluate(np.array(WARMUP[0], dtype=np.uint8).reshape(1, 1, 3), np.array(WARMUP[1], dtype=np.uint8).reshape(1, 1, 3), verbose=False)
+        res = ev.evaluate(pred, ref, verbose=False)["ungrouped"][0]
         o = RC.result_to_dict(res, mets)
     except Exception as e:
         return {"match": False, "violates": True, "reason": "evaluation_completes: %s: %s" % (type(e).__name__, str(e)[:160]), "observed": None}
